@@ -1,0 +1,22 @@
+//go:build verif
+// +build verif
+
+// Machine-checked contracts for this package (checked by /verif/govc).
+// Comment-only: no executable code.
+
+package keeper
+
+//@ import types "github.com/ovrclk/akash/x/provider/types"
+//@ import sdk "github.com/cosmos/cosmos-sdk/types"
+
+// provider records are keyed by the raw bytes of the owner's address
+//@ func providerKey
+//@   ensures result == addrBytes(id)
+//@ spec provOf(val: map[str]str, addr: str): types.Provider = decode(types.Provider, val[addr])
+
+//@ func (Keeper).Get
+//@   requires typeis(id, sdk.AccAddress)
+//@   ensures result1 <==> KVhas[k.skey][unbox(id, sdk.AccAddress)]
+//@   ensures result1 ==> result0 == provOf(KVval[k.skey], unbox(id, sdk.AccAddress))
+
+//@ property C08 := providerKey#*, (Keeper).Get#*
